@@ -73,12 +73,12 @@ def AtomParser(string=None):
     bases = [u for u in UNIT_STANDARD.keys() if string.endswith(u)]
     if bases:
         base = max(bases, key=len)
-        string = string[-len(base)-1]
+        string = string[1:-len(base)]   # text in front of the unit symbol
         unitid = f"{base:s}"
     else:
         raise Exception('Unknown unit', string, string_bak)
     # parse unit prefix
-    prefkeys = [p for p in UNIT_PREFIXES.keys() if string.endswith(p)]
+    prefkeys = [p for p in UNIT_PREFIXES.keys() if string==p]
     if prefkeys:
         prefix = max(prefkeys, key=len)
         if isinstance(UNIT_STANDARD[base].prefixes,list) and prefix not in UNIT_STANDARD[base].prefixes:
@@ -88,7 +88,7 @@ def AtomParser(string=None):
         elif UNIT_STANDARD[base].prefixes is False:
             raise Exception(f"Unit cannot have any prefixes:", base)
         unitid = f"{prefix:s}{SYMBOL_UNITID}{unitid}"
-    elif len(string)>1:
+    elif len(string)>0:
         raise Exception("Unknown unit prefix:", string)
     # return quantity
     return Atom(1.0, {unitid: exp})
